@@ -80,9 +80,37 @@ func (a *fieldAggregator) ResultSet() (startTime int64, it series.FieldIterator)
 func (a *fieldAggregator) Aggregate(it series.FieldIterator) {
 	for it.HasNext() {
 		pIt := it.Next()
+		// NOTE: the values of a primitive series are already aggregated by its aggregate type,
+		// only can be aggregated into the series with same aggregate type.
+		aggType := pIt.AggType()
 		for pIt.HasNext() {
 			slot, value := pIt.Next()
-			a.AggregateBySlot(slot, value)
+			a.aggregateByType(aggType, slot, value)
+		}
+	}
+}
+
+// aggregateByType aggregates the value into the field series of given aggregate type.
+func (a *fieldAggregator) aggregateByType(aggType field.AggType, slot int, value float64) {
+	// drop inf value
+	if math.IsInf(value, 1) {
+		return
+	}
+	pos := slot - a.start
+	for idx := range a.aggTypes {
+		if a.aggTypes[idx] != aggType {
+			continue
+		}
+		values := a.fieldSeriesList[idx]
+		switch {
+		case values == nil:
+			values = collections.NewFloatArray(a.end - a.start + 1)
+			values.SetValue(pos, value)
+			a.fieldSeriesList[idx] = values
+		case values.HasValue(pos):
+			values.SetValue(pos, aggType.Aggregate(values.GetValue(pos), value))
+		default:
+			values.SetValue(pos, value)
 		}
 	}
 }
